@@ -22,6 +22,9 @@ def verify(rep, jobs, L, phase, variant):
     for j in jobs:
         ops = ["o%d" % j["start"]]
         for c, ls in j["calls"]:
+            if isinstance(c, str):      # 'N<c>': a counting call in between (it must not disturb the fitting setting)
+                ops.append("%s:%s" % (c, hexec.esc("\n".join(L[l][0] for l in ls) + "\n")))
+                continue
             if c is not None:
                 ops.append("k%d" % c)
             ops.append("A" + hexec.esc("\n".join(L[l][0] for l in ls) + "\n"))
@@ -41,14 +44,18 @@ def verify(rep, jobs, L, phase, variant):
             disc.add("crash")
             pend.append((j, disc, [], obs))
             continue
-        asm = [hexec.Asm(o) for o in obs if o.startswith("A:")]
+        asm = [hexec.Asm(o) for o in obs if o[:2] in ("A:", "N:")]
         pos = j["start"]
         c = 0
         mygaps = []
         for a, (cc, ls) in zip(asm, j["calls"]):
-            if cc is not None:
-                c = cc
-            lay, end = models.fit_layout(pos, ls, c)
+            if isinstance(cc, str):
+                ceff = 0                                     # counting calls never pad (and may straddle)
+            else:
+                if cc is not None:
+                    c = cc
+                ceff = c
+            lay, end = models.fit_layout(pos, ls, ceff)
             if a.ret != 0:
                 disc.add("rejected")
                 break
@@ -66,7 +73,7 @@ def verify(rep, jobs, L, phase, variant):
                 if ins != L[l][1]:
                     disc.add("bytes")
                 # the statement's invariant, evaluated on the output itself
-                if c >= 2 and l < c and at // c != (at + l - 1) // c:
+                if ceff >= 2 and l < ceff and at // ceff != (at + l - 1) // ceff:
                     disc.add("straddle")
                 cur = at + l
             if a.hi > max(a.off, 0) or (a.lo != -1 and a.lo < pos):
@@ -86,8 +93,9 @@ def verify(rep, jobs, L, phase, variant):
         if disc:
             lens = [l for _, ls in j["calls"] for l in ls]
             chunks = [c for c, _ in j["calls"]]
+            hascount = any(isinstance(c, str) for c in chunks)
             gl = sorted({len(g) // 2 for g in mygaps})
-            rep.fail({"class": phase, "chunk": str(chunks[0]), "lengths": ",".join(map(str, lens)),
+            rep.fail({"class": phase, "chunk": str(chunks[0]), "counting": "1" if hascount else "0", "lengths": ",".join(map(str, lens)),
                       "maxgap": str(max(gl) if gl else 0), "biggap": "1" if (gl and max(gl) > 11) else "0",
                       "variant": variant},
                      disc, {"job": j, "variant": variant},
@@ -158,6 +166,22 @@ def run(tier, seed):
                         jobs.append({"start": p, "calls": [(c1, [l1, l2]), (c2, [l2, l1])], "n": 256})
         verify(rep, jobs, L, "switch", variant)
         rep.bounds["switching_histories"] = len(jobs)
+        rep.states += len(jobs)
+        # the same with a counting call in between: fitting on/off must survive it unchanged
+        jobs = []
+        for c1 in (0, 4, 8):
+            for c2 in (None, 0, 4, 8):
+                for cn in (0, 4, 16):
+                    for p in range(8):
+                        for l1, l2 in itertools.product((1, 3, 5), repeat=2):
+                            calls = [(c1, [l1, l2]), ("N%d" % cn, [l2, l1])]
+                            if c2 is not None:
+                                calls.append((c2, [l1]))
+                                calls.append(("N%d" % cn, [l2]))
+                            calls.append((None, [l2, l1, l2]))
+                            jobs.append({"start": p, "calls": calls, "n": 256})
+        verify(rep, jobs, L, "switch+count", variant)
+        rep.bounds["switching_histories_with_counting"] = len(jobs)
         rep.states += len(jobs)
     rep.distinct_n = nontriv
     rep.sample({"history": hist(256, ["o3", "k8", "A" + hexec.esc(L[7][0] + "\n" + L[3][0] + "\n")]),
